@@ -231,11 +231,16 @@ macro_rules
      all_goals (try simp (disch := omega) only [addMod_ite, subMod_ite, uadd_ok', usub_ok', decide_eq_true_eq, if_pos,
        if_neg, Nat.mod_lt, gt_iff_lt, ge_iff_le, Nat.add_sub_cancel] at *)
      all_goals (try simp_all)
-     all_goals (try omega)))
+     all_goals (try omega)
+     all_goals (try (repeat' (first | rfl | omega | apply And.intro | congr 1)))))
 
-/-- first as functions on all states, then on the states satisfying the invariant -/
+/-- first as functions on all states, then on the states satisfying the invariant; first unfolding the
+definitions named by the caller (the callees of the pinned source), then — for a body that was
+re-expressed through other functions of the fragment — every definition of the fragment -/
 syntax "tie2" ident "[" Lean.Parser.Tactic.simpLemma,* "]" : tactic
 macro_rules
-  | `(tactic| tie2 $h [$ls,*]) => `(tactic| first | (tie [$ls,*]; done) | (tieInv $h [$ls,*]; done))
+  | `(tactic| tie2 $h [$ls,*]) => `(tactic| first
+      | (tie [$ls,*, Gen.len, Gen.is_empty, Gen.is_full, Gen.inc_start, Gen.dec_start, Gen.inc_size, Gen.dec_size, Gen.front_maybe_uninit_mut, Gen.front_maybe_uninit, Gen.back_maybe_uninit, Gen.back_maybe_uninit_mut, Gen.get_maybe_uninit, Gen.get_maybe_uninit_mut, Gen.slices_uninit_mut, Gen.as_slices, Gen.as_mut_slices, Gen.front, Gen.back, Gen.get, Gen.front_mut, Gen.back_mut, Gen.get_mut, Gen.nth_front, Gen.nth_back, Gen.push_back, Gen.push_front, Gen.try_push_back, Gen.try_push_front, Gen.pop_back, Gen.pop_front, Gen.swap, Gen.swap_remove_back, Gen.swap_remove_front, Gen.drop_range, Gen.truncate_back, Gen.truncate_front, Gen.clear, Gen.remove, Gen.make_contiguous, incStart, decStart, incSize, decSize, frontSlot, backSlot, getSlot, slicesUninitMut, asSlices, asSlicesOf, dassertE, front?, back?, get?, nthFront?, nthBack?, pushBack, pushFront, tryPushBack, tryPushFront, popBack, popFront, swap, swapRemoveBack, swapRemoveFront, dropRange, dropSegments, truncateBack, truncateFront, clear, remove, makeContiguous]; done)
+      | (tieInv $h [$ls,*, Gen.len, Gen.is_empty, Gen.is_full, Gen.inc_start, Gen.dec_start, Gen.inc_size, Gen.dec_size, Gen.front_maybe_uninit_mut, Gen.front_maybe_uninit, Gen.back_maybe_uninit, Gen.back_maybe_uninit_mut, Gen.get_maybe_uninit, Gen.get_maybe_uninit_mut, Gen.slices_uninit_mut, Gen.as_slices, Gen.as_mut_slices, Gen.front, Gen.back, Gen.get, Gen.front_mut, Gen.back_mut, Gen.get_mut, Gen.nth_front, Gen.nth_back, Gen.push_back, Gen.push_front, Gen.try_push_back, Gen.try_push_front, Gen.pop_back, Gen.pop_front, Gen.swap, Gen.swap_remove_back, Gen.swap_remove_front, Gen.drop_range, Gen.truncate_back, Gen.truncate_front, Gen.clear, Gen.remove, Gen.make_contiguous, incStart, decStart, incSize, decSize, frontSlot, backSlot, getSlot, slicesUninitMut, asSlices, asSlicesOf, dassertE, front?, back?, get?, nthFront?, nthBack?, pushBack, pushFront, tryPushBack, tryPushFront, popBack, popFront, swap, swapRemoveBack, swapRemoveFront, dropRange, dropSegments, truncateBack, truncateFront, clear, remove, makeContiguous]; done))
 
 end CircBuf
